@@ -114,6 +114,11 @@ pub fn finish_case(g: Gen, profile: &'static str) -> Case {
 pub fn generate(prop: &str, _tier: Tier, rng: &mut Rng, _idx: u64) -> Case {
     let deep = _tier == Tier::Thorough && _idx % 4 == 3;
     match prop {
+        "C06" if _idx % 8 == 5 => {
+            let mut c = crate::profiles::resume(rng);
+            c.profile = "resume (publish outcomes)";
+            c
+        }
         "C05" | "C06" => {
             let mut cfg = GenCfg::conformant(rng);
             if deep {
@@ -125,7 +130,11 @@ pub fn generate(prop: &str, _tier: Tier, rng: &mut Rng, _idx: u64) -> Case {
             }
             let mut g = Gen::new(cfg, rng);
             g.preamble();
+            let jump = g.rng.chance(1, 8);
             for _ in 0..g.cfg.steps {
+                if jump && g.rng.chance(1, 6) {
+                    g.id_jump();
+                }
                 g.action();
             }
             if g.cfg.drain {
@@ -135,6 +144,7 @@ pub fn generate(prop: &str, _tier: Tier, rng: &mut Rng, _idx: u64) -> Case {
             }
             finish_case(g, "conformant-ops")
         }
+        "C10" if _idx % 5 == 3 => crate::profiles::resume_quota(rng),
         "C10" => {
             let mut cfg = GenCfg::conformant(rng);
             cfg.receive_max = match rng.below(8) {
@@ -159,7 +169,11 @@ pub fn generate(prop: &str, _tier: Tier, rng: &mut Rng, _idx: u64) -> Case {
             let r = cfg.receive_max;
             let mut g = Gen::new(cfg, rng);
             g.preamble();
+            let jump = g.rng.chance(1, 10);
             for _ in 0..g.cfg.steps {
+                if jump && g.rng.chance(1, 6) {
+                    g.id_jump();
+                }
                 g.action();
             }
             g.drain();
@@ -195,7 +209,11 @@ pub fn generate(prop: &str, _tier: Tier, rng: &mut Rng, _idx: u64) -> Case {
             }
             let mut g = Gen::new(cfg, rng);
             g.preamble();
-            for _ in 0..g.cfg.steps {
+            let burst_at = if g.rng.chance(1, 12) { Some(g.rng.usize_below(g.cfg.steps.max(1))) } else { None };
+            for k in 0..g.cfg.steps {
+                if burst_at == Some(k) {
+                    g.burst();
+                }
                 g.action();
             }
             g.drain();
@@ -213,6 +231,8 @@ pub fn generate(prop: &str, _tier: Tier, rng: &mut Rng, _idx: u64) -> Case {
                 let ops = if _tier == Tier::Thorough { 70_000 + rng.range(0, 130_000) as u32 } else { 66_000 + rng.range(0, 6_000) as u32 };
                 let ops = std::env::var("POSIM_IDOPS").ok().and_then(|s| s.parse().ok()).unwrap_or(ops);
                 crate::profiles::ids_long(rng, ops)
+            } else if _idx % 4 == 1 {
+                crate::profiles::resume_ids(rng)
             } else {
                 crate::profiles::ids_near_wrap(rng)
             }
@@ -266,6 +286,9 @@ pub fn judge(prop: &str, sc: &Scenario, aux: Option<&Scenario>) -> Judged {
                 j.nontrivial.push(fnv_of(&(kinds, order, j.interleaving)));
             }
         }
+        "C06" if a.conns.len() > 1 => {
+            viols.extend(oracle::c06_resumed(&a));
+        }
         "C06" => {
             viols.extend(oracle::c06(&a));
             for o in a.ops.values() {
@@ -309,7 +332,7 @@ pub fn judge(prop: &str, sc: &Scenario, aux: Option<&Scenario>) -> Judged {
             }
         }
         "C08" => {
-            viols.extend(oracle::c08(&a));
+            viols.extend(oracle::c08_in(&a, Some(sc)));
             let seq: Vec<(u8, u8)> = a
                 .inbound
                 .iter()
